@@ -3,3 +3,5 @@ import YardlModel.Streams
 import YardlModel.Batch
 import YardlModel.Expr
 import YardlModel.Imports
+import YardlModel.Cli
+import YardlModel.Determinism
